@@ -506,3 +506,33 @@ func (x *X) PanicTok(v interface{}) vt.Tok {
 	}
 	return vt.Tok{K: "P", N: 0}
 }
+
+// ---------------------------------------------------------------------------
+// Token carriers for value types that are not declared by the rendered
+// package: error and any (types of the universe scope).
+
+type tokErr struct{ tok int }
+
+func (e *tokErr) Error() string { return "token " + strconv.Itoa(e.tok) }
+
+// TokErr returns an error value carrying tok.
+func TokErr(tok int) error { return &tokErr{tok} }
+
+// ErrTok returns the token carried by e (0 for nil).
+func ErrTok(e error) int {
+	if t, ok := e.(*tokErr); ok {
+		return t.tok
+	}
+	return 0
+}
+
+// TokBox carries a token inside an any.
+type TokBox struct{ Tok int }
+
+// AnyTok returns the token carried by v (0 for nil).
+func AnyTok(v interface{}) int {
+	if b, ok := v.(TokBox); ok {
+		return b.Tok
+	}
+	return 0
+}
